@@ -60,7 +60,10 @@ def snap_command(input_workload, output_file, ticks_per_second, force=False):
             # Modify arrival_seconds if it's set (not empty)
             if row['arrival_seconds'].strip():
                 original = float(row['arrival_seconds'])
-                snapped = math.floor(original * ticks_per_second) / ticks_per_second
+                # a time already on a tick boundary must stay there even when the
+                # float product lands just below the tick number (0.57 * 100)
+                ticks = original * ticks_per_second
+                snapped = math.floor(ticks + 1e-9 * max(1.0, abs(ticks))) / ticks_per_second
                 row['arrival_seconds'] = snapped
 
             writer.writerow(row)
